@@ -2,3 +2,7 @@ claim("C26", "exploration", "deterministic simulation: seeded thread schedules w
       "Seeded search over interleavings (incl. statement-level pre-emption inside buffered_pipe.py) and scheduling stalls of up to 3 tasks running random feed/read/empty/close programs on the real BufferedPipe; every result must be explained by a sequential FIFO model replayed in the order of the pipe lock's critical sections. Sampling, not proof.",
       "Trusts the simulated Lock/Condition/Event to mirror CPython semantics; assumes all pipe state changes happen under its lock.",
       "DESIGN.md 5/C26")
+claim("C24", "exploration", "deterministic simulation: seeded schedules with line-level pre-emption of real transports/channels; select() oracle at quiescent points",
+      "Seeded search over interleavings of the client's transport thread (feeding stdout/stderr, EOF, close) with application tasks calling fileno/recv/recv_stderr/set_combine_stderr, with statement-level pre-emption in pipe.py, buffered_pipe.py and channel.py; at every quiescent point a real select() on the real kernel pipe must agree with (stdout ready or stderr ready or EOF or closed). Sampling, not proof.",
+      "Oracle only at quiescent points; Windows pipe variant not run; simulated primitives trusted to mirror CPython semantics.",
+      "DESIGN.md 5/C24")
